@@ -145,6 +145,14 @@ def shapes():
     # witnesses of the two repaired defects (see known_findings.json)
     out.append(((2, 1), (4,), (3, 4), (1, 2), ()))
     out.append(((2,), (), (2, 4), (5, 1), (3, 1), (5, 1)))
+    # nested loops: an inner loop directly in the body of an outer loop without a branch,
+    # the outer loop inside a branch arm (seeded change C04-reparent-all-depths)
+    out.append(((1, 4), (2,), (2, 3), (1, 4), ()))
+    out.append(((1,), (2,), (3,), (3, 4), (2, 5), (1, 6), ()))
+    out.append(((1, 5), (2,), (3,), (3, 4), (2, 1, )[:2] and (2, 5), ()))
+    # short-circuit branch whose arm is a loop (seeded changes C01/C06: region predecessor of a unified tail)
+    out.append(((1, 3), (2, 3), (2, 4), (4,), ()))
+    out.append(((1,), (2, 6), (3, 6), (3, 5), (), (1, 4), (5,)))
     # Bahmann fig. 3 / fig. 4 like
     out.append(((1,), (2, 3), (4,), (4,), (5, 1), ()))
     out.append(((1, 2), (3,), (4,), (4, 5), (3, 5), ()))
